@@ -221,7 +221,14 @@ theorem peerEv_spec (cfg : Cfg) (s : St) (e : Ev) (h : InvA s) (hb : s.chan = .r
       (Or.inl rfl) rfl (Or.inr rfl) (Or.inr rfl) rfl rfl plain_rfl (Or.inr rfl)
   | offline w =>
     simp only [peerEv]
-    exact peerpost_same (invA_mk h rfl rfl rfl rfl rfl rfl rfl rfl) hb hs hu (Or.inl rfl) rfl (Or.inl rfl) (Or.inl rfl) rfl rfl plain_rfl
+    refine peerpost_same (invA_mk (invc_stream (st' := brokenStream s.stream) (dz' := s.dz) h ?_) rfl rfl rfl rfl rfl rfl rfl rfl) ?_ hs hu
+      (Or.inl rfl) rfl (Or.inl rfl) (Or.inl rfl) rfl rfl plain_rfl
+    · intro hr _ hnb
+      have := hb hr
+      cases hst : s.stream <;> simp_all [brokenStream]
+    · intro hr
+      have := hb hr
+      cases hst : s.stream <;> simp_all [brokenStream]
   | online w f =>
     simp only [peerEv]
     exact honl f (by intro x y; subst y; simp [Ev.putFault] at x)
